@@ -43,6 +43,15 @@ pub fn bytes_pool() -> Vec<Vec<u8>> {
         b"*".to_vec(),
         b"hello world".to_vec(),
         vec![b'x'; 40],
+        // byte strings whose text reads as a value of another type
+        b"192.0.2.1".to_vec(),
+        b"::1".to_vec(),
+        b"true".to_vec(),
+        b"1337".to_vec(),
+        b"null".to_vec(),
+        b"[1,2]".to_vec(),
+        b"{\"a\":1}".to_vec(),
+        b"\x80".to_vec(),
     ]
 }
 
@@ -75,6 +84,8 @@ pub fn key_pool() -> Vec<Vec<u8>> {
         b"\xc3\xa9".to_vec(),
         b"\xff".to_vec(),
         b"a\xff".to_vec(),
+        b"1".to_vec(),
+        b"::1".to_vec(),
     ]
 }
 
@@ -318,6 +329,27 @@ fn fn_templates() -> Vec<FnTemplate> {
             ret: RType::Bool,
         },
         t1("lift", Sem::Lift, Field, RType::Bool, a(RType::Bool)),
+        FnTemplate {
+            base: "pickb",
+            sem: Sem::Pick,
+            params: vec![(Field, RType::Bool), (Both, RType::Bytes)],
+            opts: vec![],
+            ret: RType::Bytes,
+        },
+        FnTemplate {
+            base: "pickn",
+            sem: Sem::Pick,
+            params: vec![(Field, RType::Bool), (Both, RType::Int)],
+            opts: vec![],
+            ret: RType::Int,
+        },
+        FnTemplate {
+            base: "picki",
+            sem: Sem::Pick,
+            params: vec![(Field, RType::Bool), (Both, RType::Ip)],
+            opts: vec![],
+            ret: RType::Ip,
+        },
         FnTemplate {
             base: "glue",
             sem: Sem::Glue,
